@@ -224,65 +224,185 @@ func parkedProbes() (n int, stack string) {
 	return
 }
 
+// condWaiters counts probe goroutines parked in sync.Cond.Wait.
+func condWaiters() int {
+	buf := make([]byte, 1<<20)
+	for {
+		k := runtime.Stack(buf, true)
+		if k < len(buf) {
+			buf = buf[:k]
+			break
+		}
+		buf = make([]byte, 2*len(buf))
+	}
+	n := 0
+	for _, g := range strings.Split(string(buf), "\n\n") {
+		if strings.Contains(g, "main.probeCall") && strings.Contains(g, "sync.(*Cond).Wait") {
+			n++
+		}
+	}
+	return n
+}
+
 func selfDeadlockProbe(c *vlib.Ctx) {
 	leaked := 0
+	condLeaked := 0
 	for ti, ct := range ctypes {
 		if ti%c.NShards != c.Shard {
 			continue
 		}
 		typ := reflect.TypeOf(ct.mk())
-		for mi := 0; mi < typ.NumMethod(); mi++ {
-			mname := typ.Method(mi).Name
-			id := fmt.Sprintf("selfdeadlock/%s.%s", ct.name, mname)
-			if (c.Only != "" && c.Only != id) || c.Resume[id] {
-				continue
-			}
-			c.Journal(id, "selfdeadlock")
-			r := c.Rand(id)
-			inst := reflect.ValueOf(ct.mk())
-			populate(inst, r, 4)
-			m := inst.Method(mi)
-			done := make(chan interface{}, 1)
-			go probeCall(m, r, inst, done)
-			verdict := ""
-			var pan interface{}
-			waits := []time.Duration{20 * time.Millisecond, 100 * time.Millisecond, 400 * time.Millisecond, time.Second, 3 * time.Second, 10 * time.Second, 30 * time.Second}
-		poll:
-			for _, w := range waits {
-				select {
-				case pan = <-done:
-					verdict = "returned"
-					break poll
-				case <-time.After(w):
-					if n, st := parkedProbes(); n > leaked {
-						// parked in Mutex.Lock beneath its own receiver on a private instance:
-						// nobody else can ever release that lock
-						verdict = "deadlock"
-						leaked = n
-						c.Fail(fmt.Sprintf("%s.%s:self-deadlock", strings.SplitN(ct.name, "(", 2)[0], mname),
-							"the method blocks forever on the structure's own lock when called on a private instance from a single goroutine",
-							map[string]interface{}{"type": ct.name, "method": mname, "goroutine": st})
-						break poll
+		variants := []string{"populated", "empty"}
+		if _, ok := typ.MethodByName("SetMax"); ok {
+			variants = append(variants, "bounded-full")
+		}
+		for _, variant := range variants {
+			for mi := 0; mi < typ.NumMethod(); mi++ {
+				mname := typ.Method(mi).Name
+				id := fmt.Sprintf("selfdeadlock/%s.%s/%s", ct.name, mname, variant)
+				if (c.Only != "" && c.Only != id) || c.Resume[id] {
+					continue
+				}
+				c.Journal(id, "selfdeadlock")
+				r := c.Rand(id)
+				inst := reflect.ValueOf(ct.mk())
+				switch variant {
+				case "populated":
+					populate(inst, r, 4)
+				case "bounded-full":
+					// bound the structure to what it holds, so that every insert path has to evict
+					populate(inst, r, 4)
+					if sm := inst.MethodByName("SetMax"); sm.IsValid() && sm.Type().NumIn() == 1 {
+						if sz := inst.MethodByName("Size"); sz.IsValid() {
+							n := int(sz.Call(nil)[0].Int())
+							if n < 1 {
+								n = 1
+							}
+							sm.Call([]reflect.Value{reflect.ValueOf(n).Convert(sm.Type().In(0))})
+						}
 					}
 				}
-			}
-			c.Eval(1)
-			c.Count("methods_probed", 1)
-			c.SetAdd("types_probed", ct.name)
-			c.DistinctStr(id)
-			switch verdict {
-			case "returned":
-				if pan != nil {
-					c.Count("methods_panicked_on_synthetic_args", 1)
+				m := inst.Method(mi)
+				done := make(chan interface{}, 1)
+				go probeCall(m, r, inst, done)
+				verdict := ""
+				var pan interface{}
+				waits := []time.Duration{20 * time.Millisecond, 100 * time.Millisecond, 400 * time.Millisecond, time.Second, 3 * time.Second, 10 * time.Second, 30 * time.Second}
+			poll:
+				for _, w := range waits {
+					select {
+					case pan = <-done:
+						verdict = "returned"
+						break poll
+					case <-time.After(w):
+						if cw := condWaiters(); cw > condLeaked {
+							// parked in Cond.Wait: a blocking dequeue on an empty queue waits for
+							// a producer by design; that is not the structure's own lock
+							verdict = "waits-for-producer"
+							condLeaked = cw
+							c.Count("methods_blocking_by_design", 1)
+							break poll
+						}
+						if n, st := parkedProbes(); n > leaked {
+							// parked in Mutex.Lock beneath its own receiver on a private instance:
+							// nobody else can ever release that lock
+							verdict = "deadlock"
+							leaked = n
+							c.Fail(fmt.Sprintf("%s.%s:self-deadlock", strings.SplitN(ct.name, "(", 2)[0], mname),
+								"the method blocks forever on the structure's own lock when called on a private instance from a single goroutine",
+								map[string]interface{}{"type": ct.name, "method": mname, "instance": variant, "goroutine": st})
+							break poll
+						}
+					}
 				}
-			case "":
-				c.Inconclusive(id, "method did not return within 45 s and is not parked on a mutex")
-			}
-			if c.WantSample() && mi < 2 {
-				c.Sample(map[string]interface{}{"monitor": "self-deadlock", "type": ct.name, "method": mname, "verdict": verdict})
+				c.Eval(1)
+				c.Count("methods_probed", 1)
+				c.SetAdd("types_probed", ct.name)
+				c.DistinctStr(id)
+				switch verdict {
+				case "returned":
+					if pan != nil {
+						c.Count("methods_panicked_on_synthetic_args", 1)
+					}
+				case "":
+					c.Inconclusive(id, "method did not return within 45 s and is not parked on a mutex")
+				}
+				if c.WantSample() && mi < 2 {
+					c.Sample(map[string]interface{}{"monitor": "self-deadlock", "type": ct.name, "method": mname, "instance": variant, "verdict": verdict})
+				}
 			}
 		}
 	}
+}
+
+// stressWorker runs one goroutine's share of a concurrent run (a named function, so that the
+// deadlock watchdog can find these goroutines in a dump).
+//
+//go:noinline
+func stressWorker(wg *sync.WaitGroup, progress *int64, step func(i int), n int) {
+	defer wg.Done()
+	for i := 0; i < n; i++ {
+		step(i)
+		atomic.AddInt64(progress, 1)
+		if i%7 == 0 {
+			runtime.Gosched()
+		}
+	}
+}
+
+// waitOrDeadlock waits for wg. If the progress counter stands still and EVERY goroutine that
+// is still inside marker is parked in sync.Mutex.Lock (none runnable, none running), no
+// goroutine can ever release that mutex: a conclusive deadlock, independent of timing.
+func waitOrDeadlock(wg *sync.WaitGroup, progress *int64, marker string) (string, string) {
+	done := make(chan struct{})
+	go func() { wg.Wait(); close(done) }()
+	last := atomic.LoadInt64(progress)
+	still := 0
+	for waited := 0; waited < 150; waited++ {
+		select {
+		case <-done:
+			return "done", ""
+		case <-time.After(2 * time.Second):
+		}
+		cur := atomic.LoadInt64(progress)
+		if cur != last {
+			last, still = cur, 0
+			continue
+		}
+		still++
+		if still < 2 {
+			continue
+		}
+		total, parked, stack := markerGoroutines(marker)
+		if total > 0 && parked == total && atomic.LoadInt64(progress) == cur {
+			return "deadlock", stack
+		}
+	}
+	return "stuck", ""
+}
+
+func markerGoroutines(marker string) (total, parked int, stack string) {
+	buf := make([]byte, 1<<20)
+	for {
+		k := runtime.Stack(buf, true)
+		if k < len(buf) {
+			buf = buf[:k]
+			break
+		}
+		buf = make([]byte, 2*len(buf))
+	}
+	for _, g := range strings.Split(string(buf), "\n\n") {
+		if !strings.Contains(g, marker+"(") {
+			continue
+		}
+		total++
+		h := gHeader.FindStringSubmatch(g)
+		if h != nil && (strings.HasPrefix(h[1], "sync.Mutex.Lock") || strings.HasPrefix(h[1], "sync.RWMutex")) && strings.Contains(g, "github.com/whatap/golib/") {
+			parked++
+			stack = g
+		}
+	}
+	return
 }
 
 // ---- monitor 1: stress (race detector, panics, quiescent checks) ----------------------------
@@ -315,34 +435,38 @@ func stressOne(c *vlib.Ctx, ct ctype, r *vlib.Rand, label string, goroutines, ke
 	}
 	var wg sync.WaitGroup
 	var panics int64
+	var progress int64
 	var firstPanic atomic.Value
 	pairSeen := make([]map[string]int, goroutines)
 	for g := 0; g < goroutines; g++ {
 		wg.Add(1)
 		gr := r.Fork(fmt.Sprint("g", g))
 		pairSeen[g] = map[string]int{}
-		go func(g int, gr *vlib.Rand) {
-			defer wg.Done()
-			for i := 0; i < opsPer; i++ {
-				op := ops[gr.Intn(len(ops))]
-				if op.name == "Clear" && gr.Intn(8) != 0 {
-					continue // keep the structure populated most of the time
-				}
-				_, p := callRecovered(op.m, gr, keys, inst)
-				if p != nil {
-					if atomic.AddInt64(&panics, 1) == 1 {
-						firstPanic.Store(fmt.Sprintf("%s: %v", op.name, p))
-					}
-				}
-				pairSeen[g][op.name]++
-				if i%7 == 0 {
-					runtime.Gosched()
+		g, gr := g, gr
+		go stressWorker(&wg, &progress, func(i int) {
+			op := ops[gr.Intn(len(ops))]
+			if op.name == "Clear" && gr.Intn(8) != 0 {
+				return // keep the structure populated most of the time
+			}
+			_, p := callRecovered(op.m, gr, keys, inst)
+			if p != nil {
+				if atomic.AddInt64(&panics, 1) == 1 {
+					firstPanic.Store(fmt.Sprintf("%s: %v", op.name, p))
 				}
 			}
-		}(g, gr)
+			pairSeen[g][op.name]++
+		}, opsPer)
 	}
-	wg.Wait()
 	tname := strings.SplitN(ct.name, "(", 2)[0]
+	if verdict, stack := waitOrDeadlock(&wg, &progress, "main.stressWorker"); verdict != "done" {
+		if verdict == "deadlock" {
+			c.Fail(tname+":deadlock-under-concurrency", "every goroutine operating on the shared instance is parked on the structure's own mutex: the concurrent run can never finish",
+				map[string]interface{}{"type": ct.name, "goroutines": goroutines, "keys": keys, "goroutine": stack})
+		} else {
+			c.Inconclusive(label, "stress run made no progress for 5 minutes but is not parked on a mutex")
+		}
+		return
+	}
 	if panics > 0 {
 		fp, _ := firstPanic.Load().(string)
 		// is it a panic that also happens sequentially? (then it is C09/C12's finding, not a
